@@ -25,6 +25,12 @@ type Inner struct {
 }
 
 func NewInner(x, y int) Inner { return Inner{X: x, y: y} }
+
+// Inner3 has exactly the layout of Inner: the two are convertible, and only a conversion carries y over.
+type Inner3 struct {
+	X int
+	y int
+}
 func (i Inner) Y() int        { return i.y }
 
 // Anon contains an anonymous struct with an unexported member.
@@ -67,6 +73,10 @@ func Atoi(s string) (int, error) {
 	return len(s), nil
 }
 func hidden(i int) int               { return i }
+
+// function-typed variables (not declared functions)
+var FV = func(i int) int { return i }
+var FVHook = func(d *D, s *S) {}
 func HookSD(d *D, s *S)              {}
 func HookSDErr(d *D, s *S) error     { return nil }
 `,
